@@ -284,7 +284,48 @@ def single_node_fn(case):
     return r
 
 
+def bigtable_fn(case):
+    """A table with more spectral points than any power-of-two block an interpolation kernel might work in: every
+    wavenumber of the interior, edge and outside answers against the reference."""
+    r = core.R(case)
+    fx.reset_caches()
+    nW = case['nW']
+    Tg, Pg = fx.T_GRIDS[2], fx.P_GRIDS[2]
+    g = fx.rng('c04big', nW)
+    x = (10 ** g.uniform(-1.0, 1.0, size=(2, 2, nW))) * 1e-24 * 1e4
+    isk = case['layout'] != 'xsec'
+    wn = np.linspace(500.0, 5000.0, nW)
+    if isk:
+        x = x[..., None] * np.array([1.0, 2.5])[None, None, None, :]
+        op = fx.TinyK('H2O', wn, Tg, Pg, x, [0.4, 0.6], case['mode'])
+    else:
+        op = fx.TinyOp('H2O', wn, Tg, Pg, x, case['mode'])
+    tag = '%s/%s' % (case['mode'], 'ktable' if isk else 'xsec')
+    for (tn, T), (pn, P) in itertools.product(axis_points(Tg), axis_points(Pg, log=True)):
+        got = np.asarray(op.opacity(T, P, None), dtype=float)
+        if tn == 'below' and pn == 'below':
+            r.check(bool(np.all(got == 0)), 'zero-corner', 'big/zero-corner/' + tag)
+            continue
+        lo, hi = opac.bracket_nodes(x, Tg, Pg, T, P)
+        slack = 4 * np.finfo(float).eps * hi
+        okb = (got >= lo - slack) & (got <= hi + slack) & np.isfinite(got)
+        r.check(bool(np.all(okb)), 'bracket', 'big/bracket/%s' % tag, T=T, P=P,
+                first_bad=np.argwhere(~okb)[:4].tolist(), count=int((~okb).sum()))
+        if tn not in ('below', 'above') and pn not in ('below', 'above'):
+            want = opac.interp_opacity(x, Tg, Pg, T, P, case['mode'])
+            okv = np.isclose(got, want, rtol=1e-9, atol=0)
+            r.check(bool(np.all(okv)), 'cell-value', 'big/value/%s' % tag, T=T, P=P,
+                    first_bad=np.argwhere(~okv)[:4].tolist(), count=int((~okv).sum()))
+    r.observe(got[::4999])
+    r.nontrivial = True
+    return r
+
+
 def explore(ctx):
+    bt = [{'nW': nW, 'mode': md, 'layout': lay} for nW, md, lay in
+          ((65537, 'exp', 'xsec'), (70001, 'linear', 'xsec'), (40001, 'exp', 'k2'), (131073, 'exp', 'xsec'),
+           (140003, 'linear', 'k2'))]
+    ctx.run_cases('bigtable_fn', bt, phase='large-table')
     sn = [{'shape': list(sh), 'mode': mode, 'layout': lay} for sh in ((1, 3), (3, 1), (1, 2), (2, 1), (1, 1))
           for mode in ('linear', 'exp') for lay in LAYOUTS]
     ctx.run_cases('single_node_fn', sn, phase='single-node')
